@@ -426,20 +426,47 @@ From Mxj Require Import Gen.Setters_gen Gen.PureSupport Gen.Pure_gen Spec.ConvCl
 
 Theorem C15_xml_parser_code_is_model : forall pf callskip o r st fuel ts tm,
   dec_view st o -> cast_view st o -> length ts < fuel -> forallb start_ok ts = true ->
-  fn_xmlToMapParser (run_escapeChars st) (run_cast pf callskip st) fuel st [] [] (ts, tm) r
+  fn_xmlToMapParser (run_cast pf callskip st) (run_escapeChars st) fuel st [] [] (ts, tm) r
   = dec_top_result tm (xml_decode_rest pf (skip_of st callskip) o r ts tm).
 Proof. exact xml_parser_code_is_model_translated. Qed.
 Print Assumptions C15_xml_parser_code_is_model.
 
 Theorem C15_xml_parser_code_no_panic : forall pf callskip o r st fuel ts tm,
   dec_view st o -> cast_view st o -> length ts < fuel -> forallb start_ok ts = true -> top_ok ts = true ->
-  fn_xmlToMapParser (run_escapeChars st) (run_cast pf callskip st) fuel st [] [] (ts, tm) r <> Crash.
+  fn_xmlToMapParser (run_cast pf callskip st) (run_escapeChars st) fuel st [] [] (ts, tm) r <> Crash.
 Proof. exact xml_parser_code_no_panic. Qed.
 Print Assumptions C15_xml_parser_code_no_panic.
 
 Theorem C15_xml_parser_code_empty_name_refuted :
   exists pf skip o r st ts tm, dec_view st o /\
-    fn_xmlToMapParser escape_chars (fun x b t => cast pf skip o x b t) (S (length ts)) st [] [] (ts, tm) r
+    fn_xmlToMapParser (fun x b t => cast pf skip o x b t) escape_chars (S (length ts)) st [] [] (ts, tm) r
     <> dec_top_result tm (xml_decode_rest pf skip o r ts tm).
 Proof. exact xml_parser_code_is_model_empty_name_refuted. Qed.
 Print Assumptions C15_xml_parser_code_empty_name_refuted.
+
+(* ---- tie to the CURRENT source of xmlSeqToMapParser (xmlseq.go:220-437), the core of NewMapXmlSeq: go2v re-translates
+   the function statement by statement on every run (Gen/Pure_gen.v: snake-casing, the #attr map with #text / #seq per
+   attribute, the XMPP early return, the RawToken loop with all six token cases, recursion, #seq injection, list building,
+   the end-tag name check, the NoRoot returns); GenProofs/PureG15.v proves the translation - with the TRANSLATED cast and
+   escapeChars plugged in - equal to the model [seq_decode_rest] the theorems above are stated with, on EVERY token list
+   (no side condition), and that it never panics in any package state. *)
+From Mxj Require Import Gen.Setters_gen Gen.PureSupport Gen.Pure_gen GenProofs.PureG GenProofs.PureG15.
+
+Theorem C15_seq_parser_code_is_model : forall pf callskip o r st ts tm,
+  seq_view st o -> cast_view st o ->
+  sq_abs (fn_xmlSeqToMapParser (PureG15.run_cast pf callskip st) (PureG15.run_escapeChars st) (S (length ts)) st [] [] (ts, tm) r)
+  = seq_decode_rest pf (skip_of st callskip) o r ts tm.
+Proof. exact seq_parser_code_abs_translated. Qed.
+Print Assumptions C15_seq_parser_code_is_model.
+
+Theorem C15_seq_parser_code_eq : forall pf callskip o r st ts tm,
+  seq_view st o -> cast_view st o ->
+  fn_xmlSeqToMapParser (PureG15.run_cast pf callskip st) (PureG15.run_escapeChars st) (S (length ts)) st [] [] (ts, tm) r
+  = sq_ret tm (seq_decode_rest pf (skip_of st callskip) o r ts tm) (seq_decode_err pf (skip_of st callskip) o r ts tm).
+Proof. exact seq_parser_code_eq_translated. Qed.
+Print Assumptions C15_seq_parser_code_eq.
+
+Theorem C15_seq_parser_code_no_panic : forall pf callskip r st name a ts tm f, length ts < f ->
+  fn_xmlSeqToMapParser (PureG15.run_cast pf callskip st) (PureG15.run_escapeChars st) f st name a (ts, tm) r <> Crash.
+Proof. exact seq_parser_code_no_panic. Qed.
+Print Assumptions C15_seq_parser_code_no_panic.
